@@ -3,7 +3,7 @@
    Vocabulary: coq/theories/C11_Url.v (net/url, pkg/op builders, user agent
    for a Location), C11_Html.v (html/template, form_post template, user agent
    for an attribute), C11_spec.v (case vocabulary, model, property predicate). *)
-From OIDC Require Import Lib C11_Url C11_Html C11_spec C11_Url_proofs C11_Html_proofs C11_proofs.
+From OIDC Require Import Lib C11_Url C11_Html C11_spec C11_Overlap C11_Url_proofs C11_Html_proofs C11_proofs.
 
 (* url.QueryUnescape (url.QueryEscape s) = s for every byte string *)
 Theorem C11_query_escape_inverse : forall s, unescape EQuery (escape EQuery s) = Some s.
@@ -89,6 +89,33 @@ Theorem C11_history_independent : forall prev n i,
   model (IAfter prev n i) = model i /\ (forall o, spec (IAfter prev n i) o = spec i o).
 Proof. exact history_independent. Qed.
 Print Assumptions C11_history_independent.
+
+(* Calls overlapping in time on one provider (one held inside the library while
+   the other runs): what is owed for a request, and what the model answers, does
+   not depend on the other call.  (The correspondence run drives such overlaps -
+   nested and crossed - through GET /authorize/callback on both routers and
+   requires the real library to agree.) *)
+Theorem C11_overlap_independent : forall other i,
+  model (IOverlap other i) = model i /\ (forall o, spec (IOverlap other i) o = spec i o).
+Proof. exact overlap_independent. Qed.
+Print Assumptions C11_overlap_independent.
+
+(* Why that is owed of AuthRequestError: it writes the request's state and
+   session_state into an error object (SSet) and encodes that object later
+   (SEnc).  When every call works on its own object, then under EVERY schedule
+   of the steps of any number of callbacks (each callback encodes after it
+   wrote) every callback encodes the values of its own request ... *)
+Theorem C11_overlap_isolated : forall req m s,
+  program_order [] s = true -> own_values req (run_sched PerCall req m s).
+Proof. exact per_call_isolated. Qed.
+Print Assumptions C11_overlap_isolated.
+
+(* ... and with one object shared by all calls there is a schedule (the crossed
+   one the run drives) in which a callback encodes another request's state. *)
+Theorem C11_overlap_shared_object_refuted :
+  exists req m s, program_order [] s = true /\ ~ own_values req (run_sched Shared req m s).
+Proof. exact shared_object_refuted. Qed.
+Print Assumptions C11_overlap_shared_object_refuted.
 
 (* F23 (recorded, open): form_post with a custom-scheme redirect URI posts to
    "#ZgotmplZ", not to the redirect URI. *)
